@@ -37,7 +37,7 @@ ASSUMPTIONS = [
 ]
 PROBES = ["page box degenerate or displaced", "rotated or mirrored text", "earlier job aborted inside a form", "page selection: none", "page selection: first", "page selection: odd", "xml with exported images", "sink:StringIO", "sink:TextIOWrapper", "sink:BytesIO", "sink:mode-w", "sink:mode-wb", "sink:duck", "codec:utf-16-le", "codec:utf-32-le", "codec:latin-1", "special char in text", "control char in text", "astral char in text", "special char in font name", "special char in figure name", "strip_control", "figure", "shape", "image", "boxes_flow None", "vertical text box"]
 TIERS = {
-    "quick": {"batches": 16, "runs": 350, "budget_s": 50},
+    "quick": {"batches": 16, "runs": 350, "budget_s": 90},
     "thorough": {"batches": 128, "runs": 500, "budget_s": 1200},
 }
 DETERMINISM_SLICE = 4
